@@ -42,6 +42,7 @@ func (r *router) initUpstream(cfg *UpstreamConfig) error {
 
 	w := wrapUpstream(cfg.Tag, u)
 	if err := w.RegisterMetricsTo(r.metricsReg); err != nil {
+		u.Close() // Not in r.upstreams, r.close() won't close it.
 		return fmt.Errorf("failed to register metrics, %w", err)
 	}
 	r.upstreams[cfg.Tag] = w
